@@ -242,6 +242,15 @@ var ghostRecNext func(d []byte, o int) int
 //@ func NewTableFromDocument$0
 //@   property C09
 //@   atcall deleteFunc: canDelete && err == nil
+//@   atcall ExclusivelyOwnsTable: arg0 == p.uri && same(arg1, p.startKey) && same(arg2, p.endKey)
+
+// ... and the callback is registered with the table's own URI and its whole key range (the
+// ownership policy decides from the range whether a neighbour has to be asked).
+//@ func NewTableFromDocument
+//@   property C09
+//@   nosafety
+//@   atcall AddCleanup: arg2.uri == doc.URI && same(arg2.startKey, doc.StartKey) && same(arg2.endKey, doc.EndKey) && same(arg2.dataOwnership, dataOwnership)
+//@   ensures result != nil && same(result.startKey, doc.StartKey) && same(result.endKey, doc.EndKey) && result.startSeqNum == doc.StartSeqNum && result.endSeqNum == doc.EndSeqNum
 
 // ghostTableURI: the URI of a table's file (fixed when the table is created).
 var ghostTableURI func(t *Table) string
@@ -293,8 +302,12 @@ var ghostLevelOf func(ll *LevelList, t *Table) int
 //@ define inList(ts, x) := exists(0, len(ts), func(pp_ int) bool { return ts[pp_] == x })
 //@ define lvlIn(ts, lvl) := forall(0, len(lvl.tables.l), func(aa_ int) bool { return inList(ts, lvl.tables.l[aa_]) })
 
+// (Both compactions write exactly the merge of the scans of the selected tables - nothing is
+// filtered between the merge and the writer: a tombstone that hides an older version in a deeper
+// level must reach the output.)
 //@ func Compactor.majorCompaction
 //@   property C18
+//@   atcall WriteRun: same(arg0, kv.MergeEntries(tableIters))
 //@   nosafety
 //@   requires levels != nil && len(levels.levels) >= 2 && forall(0, len(levels.levels), func(i int) bool { return levels.levels[i].tables != nil })
 //@   ensures result1 == nil ==> result0 != nil && forall(0, len(levels.levels)-1, func(i int) bool { return forall(i+1, len(levels.levels)-1, func(j int) bool {
@@ -451,6 +464,7 @@ var ghostLevelOf func(ll *LevelList, t *Table) int
 // nothing newer from level n-1 or above is moved.
 //@ func Compactor.minorCompaction
 //@   property C18
+//@   atcall WriteRun: same(arg0, kv.MergeEntries(tableIters))
 //@   nosafety
 //@   requires levels != nil && len(levels.levels) >= 2 && c.minorCompactionLevel >= 0
 //@   requires forall(0, len(levels.levels), func(i int) bool { return levels.levels[i].tables != nil && levels.levels[i].Num == i })
